@@ -64,6 +64,7 @@ def wl_plain(ctx, rng, case):
         prev_bits = bl.bits_of(f)
         nops = rng.randint(4, 40)
         for step in range(nops):
+            bl.noise_reads(ctx, rng, f, keys)
             r = rng.random()
             cleared = False
             if r < 0.55 or not shadow:
@@ -77,6 +78,24 @@ def wl_plain(ctx, rng, case):
                 if key not in shadow:
                     shadow.append(key)
                 ctx.count("op.add")
+            elif r < 0.65 and rng.random() < 0.25 and gen.near_twin(est, rate, m, k):
+                # a partner of NEARLY the same geometry (other number of bits, same number of bytes and hashes): the union is refused (None);
+                # if it is carried out it is a union like any other and must report the keys of both operands
+                e2, m2 = gen.near_twin(est, rate, m, k)
+                g = P.BloomFilter(e2, rate, **bl.kw_hash(hf))
+                keys2 = [rng.choice(keys) for _ in range(rng.randint(1, 5))]
+                for k2 in keys2:
+                    g.add(k2)
+                swap = rng.random() < 0.5
+                case.op("union-with-near-twin", e2, m2, "swapped" if swap else "")
+                res = g.union(f) if swap else f.union(g)
+                if res is None:
+                    ctx.count("near_twin_unions_refused")
+                else:
+                    for kk in list(shadow) + keys2:
+                        if not res.check(kk):
+                            ctx.fail(f"the union with a filter of {m2} bits (this one has {m}) was carried out and does not report a key an operand held", key=kk)
+                continue
             elif r < 0.65:
                 # union with a second filter of the same geometry (in memory or on disk, either side)
                 keys2 = [rng.choice(keys) for _ in range(rng.randint(0, 5))]
@@ -242,6 +261,7 @@ def wl_expanding(ctx, rng, case):
         reloads = 0
         max_exp = 0
         for step in range(rng.randint(5, 60)):
+            bl.noise_reads(ctx, rng, f, keys)
             r = rng.random()
             if r < 0.7 or not shadow:
                 key = rng.choice(keys)
